@@ -185,10 +185,14 @@ class Collection(AbstractPriorModel):
     @assert_not_frozen
     def __setitem__(self, key, value):
         obj = AbstractPriorModel.from_object(value)
-        try:
-            obj.id = getattr(self, str(key)).id
-        except AttributeError:
-            pass
+        if obj is not value:
+            # only a model freshly built from a class / list / dict inherits the id of what it
+            # replaces; an object handed in by the caller (a prior or model that other models
+            # may share) keeps its own identity
+            try:
+                obj.id = getattr(self, str(key)).id
+            except AttributeError:
+                pass
         setattr(self, str(key), obj)
 
     @assert_not_frozen
